@@ -6,6 +6,7 @@ rumqttd/src/router/{iobufs,routing}.rs by the `vh router` correspondence.
 of ops — connect / push / event / consume / drain, each under an arbitrary oracle — from `init cfg`.
 -/
 import Proofs.Lemmas.Router.Rp1_Ack
+import Proofs.Lemmas.Router.Rp8_Idle
 import Generated.Consts
 namespace C09
 open Router
@@ -83,6 +84,41 @@ theorem unsolicited_ack_closes_only_that_connection {s s' : RState} {id : Nat} {
     getConn s' id = none ∧
     ∀ j d, j ≠ id → getConn s j = some d → ∃ t, getConn s' j = some { d with tracker := t } :=
   ⟨(bad_ack_closes hc hib hpkt hhead h).1, fun _ _ hj hd => events_frame h hj hd⟩
+
+/-- C09 "resumes on ack … without further stimulus" (state form). In every reachable state a
+    connection that tracks data requests and whose window has room (fewer than `MAX_INFLIGHT`
+    unacknowledged publishes — e.g. right after the acknowledgement of the head) is `Ready` and in
+    the ready queue, so the next `consume` calls sweep its requests, or it is `Paused(Busy)`, i.e.
+    waits for its own link to drain the buffer (`Ready` event). It is never left `Paused(InflightFull)`
+    or `Paused(Caughtup)`: `Paused(InflightFull)` holds only while the window is full
+    (`C01.scheduler_status_facts`), and the PUBACK / PUBREC that frees a slot reschedules the
+    connection (`Scheduler::reschedule(IncomingAck)`). -/
+theorem resumes_when_window_has_room {cfg : Config} {s : RState} (hr : Reachable cfg s) {id : Nat} {c : Conn}
+    (hc : getConn s id = some c) (hreq : c.tracker.requests ≠ []) (hroom : c.out.inflight.length < MAX_INFLIGHT) :
+    (c.tracker.status = .ready ∧ id ∈ s.readyqueue) ∨ c.tracker.status = .paused .busy := by
+  rcases tracking_status hr hc hreq with h | ⟨_, h⟩ | h
+  · exact .inl h
+  · omega
+  · exact .inr h
+
+/-- C09: the acknowledgement itself — a PUBACK for the head of the window, handled in a state that
+    satisfies the scheduler-status facts, leaves the connection neither `Paused(InflightFull)` nor
+    `Paused(Caughtup)`: it is `Ready` (queued) unless it is `Paused(Busy)` -/
+theorem puback_reschedules {s s' : RState} {id : Nat} {cid : String} {pkid : Nat} {fl fl' : Flags} {c : Conn}
+    (hc : getConn s id = some c) (hhead : (c.out.registerAck pkid).2 = true)
+    (h : handlePacket s id cid (.puback pkid) fl = .ok (s', fl')) :
+    ∃ c', getConn s' id = some c' ∧ c'.out = (c.out.registerAck pkid).1 ∧ c'.tracker.requests = c.tracker.requests ∧
+      c'.tracker.status ≠ .paused .inflightFull ∧ c'.tracker.status ≠ .paused .caughtup ∧
+      (c'.tracker.status = .ready → c.tracker.status = .ready ∨ id ∈ s'.readyqueue) := by
+  simp only [handlePacket, hc, hhead, Bool.not_true, Bool.false_eq_true, if_false] at h
+  split at h
+  · simp at h
+  · rename_i s2 h2
+    simp only [Except.ok.injEq, Prod.mk.injEq] at h; obtain ⟨rfl, _⟩ := h
+    have hc1 : getConn ((setConn s id { c with out := (c.out.registerAck pkid).1 }).g (.clientAcked id pkid)) id =
+        some { c with out := (c.out.registerAck pkid).1 } := (getConn_setConn_live hc _ id).trans (by simp)
+    obtain ⟨c', hc', er, eo, _, hn1, hn2, _, _, hready⟩ := reschedule_spec hc1 h2
+    exact ⟨c', hc', eo, er, hn2 rfl, hn1 (.inr (.inr rfl)), hready⟩
 
 example : (numberForwards {} 0 [(default, none), (default, none)] []).1.inflight.map (·.1) = [1, 2] := by decide
 
